@@ -74,4 +74,18 @@ def decodeBlocked (s : Stream) : Except BErr Bytes × Nat :=
       | .error e => (.error e, s.data.length)
       | .ok (body, _) => (.ok (pre ++ body), n)
 
+/-- a connection drained by repeated `DecodeBlocked` until the first error: the results in order -/
+def blockedAll (fuel : Nat) (data : Bytes) : List (Except BErr Bytes) :=
+  match fuel with
+  | 0 => []
+  | fuel + 1 =>
+    match decodeBlocked ⟨data, false⟩ with
+    | (.ok f, n) => .ok f :: blockedAll fuel (data.drop n)
+    | (.error e, _) => [.error e]
+
+/-- two connections served by one extractor: the extractor has no state, so whatever the interleaving of their
+    reads each connection yields what it yields alone (this *is* the specification of sharing a codec value) -/
+def blockedPair (a b : Bytes) : List (Except BErr Bytes) × List (Except BErr Bytes) :=
+  (blockedAll 64 a, blockedAll 64 b)
+
 end SmsVerif.Framing
